@@ -112,7 +112,11 @@ func C06() *clustermc.Family {
 			}
 			return 2
 		},
-		Env:     clustermc.EnvOpts{BindOK: true, Terminate: true},
-		Oracles: []clustermc.Oracle{oracle.VictimOracle()},
+		Env: clustermc.EnvOpts{BindOK: true, Terminate: true},
+		// every single eviction failing (API delete) or being refused by the cache in turn: what a
+		// statement has already evicted stays committed together with the placement it was made for
+		FaultDepth:    func(string) int { return 1 },
+		EvictRefusals: true,
+		Oracles:       []clustermc.Oracle{oracle.VictimOracle()},
 	}
 }
